@@ -26,18 +26,29 @@ def queueAtCheck (nextSid : Sid) (pre : Snap) (e : Ev) : List Sid :=
   | .cancel sid => pre.queue.filter (· ≠ sid)
   | _ => pre.queue
 
+/-- is this event an answer to a partition look-up of the batch in flight (metadata result, back-off timer)? -/
+def isLookupAnswer : Ev → Bool
+  | .metaDone .. => true
+  | .timer _ => true
+  | _ => false
+
 /-- Dispatch exactly when it should: (i) never idle with a non-empty queue over a threshold (a
-    threshold met during flight takes effect in the step that resolves the batch); (ii) a dispatch
-    not made by the periodic tick happens only with a threshold met; (iii) a tick with no batch in
-    flight takes a non-empty queue; (iv) no dispatch once stopped. -/
+    threshold met during flight takes effect in the step that resolves the batch) - stopped or not: once stopped
+    the queue is empty; (ii) a dispatch not made by the periodic tick happens only with a threshold met;
+    (iii) a tick with no batch in flight takes a non-empty queue; (iv) no dispatch once stopped; (v) the queue is
+    taken ONLY WHEN NO BATCH IS IN FLIGHT: nothing was in flight before the step, or the step takes the client's
+    answer to the request in flight, or the step is the answer to a look-up of a batch that had no request out
+    (and resolved). -/
 def dispatchStep (cfg : Cfg) (pre : Snap) (t : Track) (s : Step) : Bool :=
   let t0 := trackEv pre t s.ev
   let q := queueAtCheck t.nextSid pre s.ev
   let d := dispatched t.nextSid pre s
-  (t0.stopped || !s.post.idle || s.post.queue.isEmpty || !thresh cfg s.post.msgCount s.post.byteCount) &&
+  (!s.post.idle || s.post.queue.isEmpty || !thresh cfg s.post.msgCount s.post.byteCount) &&
   (!d || (match s.ev with | .tick => true | _ => thresh cfg (msgCountOf t0 q) (byteCountOf t0 q))) &&
-  (match s.ev with | .tick => !(pre.idle && !pre.queue.isEmpty && !t0.stopped && pre.looper) || d | _ => true) &&
-  (!d || !t0.stopped)
+  (match s.ev with | .tick => !(pre.idle && !pre.queue.isEmpty && pre.looper) || d | _ => true) &&
+  (!d || !t0.stopped) &&
+  (!d || pre.idle || (t.curRes.isNone && t0.curRes.isSome) ||
+     (isLookupAnswer s.ev && (t0.cur.isNone || t0.curRes.isSome)))
 
 /-- Cancelling a queued send: it will never be in a request (checked at every produce), it fires
     `CancelledError(request_sent=False)`, and it leaves the queue and the accounting at once.
@@ -77,11 +88,21 @@ def legitCancel : Option ProdRes → Bool
 
 /-- Stop: every outstanding send has fired when `stop()` returns, each with a cancellation error
     (or truthfully `ok`, when the client's answer to the cancel still carried its acknowledgement:
-    C01 checks those); the looping call is stopped; nothing is transmitted in or after `stop()`. -/
+    C01 checks those); the looping call is stopped; nothing is transmitted in or after `stop()`; from then on
+    nothing is queued and nothing is outstanding after any step, and a `send_messages` is refused at once with
+    `CancelledError(request_sent=False)`.
+    Two conditions are on the ENVIRONMENT, not waivers of the Producer's duty: `effective` - the answer the client
+    gives to the cancel of the request in flight names only payloads of that request (C07; the model has no
+    transition for an answer that does not, and the fake client never gives one); `legitCancel` - the cancellation
+    kinds are demanded when that answer is one of the real client's cancel outcomes (a mock answering the cancel
+    with, say, the empty answer makes the sends fail with NoResponseError - truthfully). -/
 def stopStep (pre : Snap) (t : Track) (s : Step) : Bool :=
   let t0 := trackEv pre t s.ev
   (!t0.stopped || s.obs.all (!isTransmission ·)) &&
+  (!t0.stopped || (s.post.outstanding.isEmpty && s.post.queue.isEmpty)) &&
   (match s.ev with
+   | .send sid _ _ msgs =>
+     !(t.stopped && sid == t.nextSid && !msgs.isEmpty) || s.obs == [.fire sid (.err (.acancelled (some false)))]
    | .stop _ pout _ =>
      !effective t s.ev ||
      (s.post.outstanding.isEmpty && !s.post.looper && s.post.queue.isEmpty &&
